@@ -185,3 +185,340 @@ Proof.
     split; [exact a|split; [|split; [exact c|exact d]]].
     intros k Hk. apply map_erase_In in Hk. destruct Hk. eapply b; eauto.
 Qed.
+
+(* ---- generic transitions ---------------------------------------------------------------------------- *)
+Lemma pcof_set_pc s t p x : pcof (set_pc s t p) x = if Nat.eqb x t then p else pcof s x.
+Proof. unfold pcof, set_pc. cbn. unfold updn. destruct (Nat.eqb x t); reflexivity. Qed.
+Lemma pcof_sleep s t w p x : pcof (sleep s t w p) x = if Nat.eqb x t then p else pcof s x.
+Proof. unfold pcof, sleep. cbn. unfold updn. destruct (Nat.eqb x t); reflexivity. Qed.
+Lemma ctx_upd_ctx s g c x : s_ctx (upd_ctx s g c) x = if Nat.eqb x g then c else s_ctx s x.
+Proof. unfold upd_ctx. cbn. unfold updn. reflexivity. Qed.
+
+(* a state whose view is that of s except that thread t is at p *)
+Record pc_upd (s s' : state) (t : tid) (p : pc) : Prop := {
+  pu_pc : forall x, pcof s' x = if Nat.eqb x t then p else pcof s x;
+  pu_ctx : forall x, s_ctx s' x = s_ctx s x;
+  pu_map : s_map s' = s_map s;
+  pu_rlock : s_rlock s' = s_rlock s;
+  pu_acc : s_acc s' = s_acc s;
+  pu_mtag : s_mtag s' = s_mtag s;
+  pu_fix : s_fix s' = s_fix s }.
+
+Lemma pc_upd_set_pc s t p : pc_upd s (set_pc s t p) t p.
+Proof. constructor; try reflexivity. apply pcof_set_pc. Qed.
+Lemma pc_upd_sleep s t w p : pc_upd s (sleep s t w p) t p.
+Proof. constructor; try reflexivity. apply pcof_sleep. Qed.
+
+Ltac eqb_case x t := destruct (Nat.eqb_spec x t); [subst x|].
+
+(* the thread stays in the same class (follower / reader with the same o_tag / adopting the same context) *)
+Lemma Inv_pc_same_class s s' t p :
+  Inv s -> pc_upd s s' t p ->
+  is_follower p = is_follower (pcof s t) ->
+  reader_otag p = reader_otag (pcof s t) ->
+  adopted_by p = adopted_by (pcof s t) ->
+  Inv s'.
+Proof.
+  intros [h1 h2 h3 h4 h5 h6 h7 h8 h9 h10] [u1 u2 u3 u4 u5 u6 u7] Hf Hr Ha.
+  assert (Hin : inside p = inside (pcof s t)).
+  { unfold inside, is_reader. rewrite Hf, Hr. reflexivity. }
+  assert (Hins : forall x, inside (pcof s' x) = inside (pcof s x)).
+  { intros x. rewrite u1. eqb_case x t; auto. }
+  assert (Hfol : forall x, is_follower (pcof s' x) = is_follower (pcof s x)).
+  { intros x. rewrite u1. eqb_case x t; auto. }
+  assert (Hro : forall x, reader_otag (pcof s' x) = reader_otag (pcof s x)).
+  { intros x. rewrite u1. eqb_case x t; auto. }
+  assert (Had : forall x, adopted_by (pcof s' x) = adopted_by (pcof s x)).
+  { intros x. rewrite u1. eqb_case x t; auto. }
+  constructor.
+  - congruence.
+  - intros x. rewrite u2, Hins. apply h2.
+  - intros x. rewrite u2, Hins. apply h3.
+  - intros x. rewrite u2, u6. apply h4.
+  - intros x y. rewrite !u2. apply h5.
+  - intros g c. rewrite u3, u2, Hins. apply h6.
+  - intros x. rewrite u2, Hfol. apply h7.
+  - intros x o. rewrite u2, u4, Hro. apply h8.
+  - intros x g. rewrite Had, !u2, u3, Hins, Hfol. apply h9.
+  - intros a. rewrite u5. apply h10.
+Qed.
+
+(* returning from do_call *)
+Definition ret_mid (s : state) (r : Z) (w rd : bool) : state :=
+  let s1 := if rd then set_rlock s None else s in
+  let s2 := if w then notify_one s1 else s1 in
+  if r <? 0 then (if s_errno s2 =? ECONNRESET then s2 else set_errno s2 EFAULT) else s2.
+
+Lemma sv_ret_mid s r w (rd : bool) : same_view (if rd then set_rlock s None else s) (ret_mid s r w rd).
+Proof.
+  unfold ret_mid. set (s1 := if rd then set_rlock s None else s).
+  assert (H2 : same_view s1 (if w then notify_one s1 else s1)).
+  { destruct w. apply sv_notify_one. apply same_view_refl. }
+  set (s2 := if w then notify_one s1 else s1) in *.
+  destruct (r <? 0); [|exact H2].
+  destruct (s_errno s2 =? ECONNRESET); [exact H2|].
+  eapply same_view_trans. exact H2. apply sv_set_errno.
+Qed.
+
+Lemma ret_call_view s t r w rd s' :
+  s' = ret_call s t r w rd ->
+  (forall x, pcof s' x = if Nat.eqb x t then PDone else pcof s x) /\
+  (forall x, s_ctx s' x = if Nat.eqb x t then cset_live (s_ctx s t) false else s_ctx s x) /\
+  s_map s' = s_map s /\ s_rlock s' = (if rd then None else s_rlock s) /\
+  s_acc s' = s_acc s /\ s_mtag s' = s_mtag s /\ s_fix s' = s_fix s.
+Proof.
+  pose proof (sv_ret_mid s r w rd) as [v1 v2 v3 v4 v5 v6 v7 v8].
+  assert (E : ret_call s t r w rd =
+              park (add_trace (upd_ctx (ret_mid s r w rd) t (cset_live (s_ctx (ret_mid s r w rd) t) false))
+                      (TvRet t (if r <? 0 then -1 else r)
+                             (if (if r <? 0 then -1 else r) <? 0 then s_errno (ret_mid s r w rd) else 0)
+                             (if (if r <? 0 then -1 else r) <? 0 then [] else c_buf (s_ctx (ret_mid s r w rd) t)) (s_now s))) t)
+    by reflexivity.
+  intros ->. rewrite E. clear E.
+  set (m := ret_mid s r w rd) in *.
+  repeat split.
+  - intros x. unfold park. rewrite pcof_sleep. destruct (Nat.eqb x t); [reflexivity|].
+    change (pcof m x = pcof s x). rewrite v1. destruct rd; reflexivity.
+  - intros x. unfold park, sleep, add_trace. cbn. unfold updn.
+    destruct (Nat.eqb x t).
+    + rewrite v2. destruct rd; reflexivity.
+    + rewrite v2. destruct rd; reflexivity.
+  - unfold park, sleep, add_trace, upd_ctx. cbn. rewrite v3. destruct rd; reflexivity.
+  - unfold park, sleep, add_trace, upd_ctx. cbn. rewrite v4. destruct rd; reflexivity.
+  - unfold park, sleep, add_trace, upd_ctx. cbn. rewrite v5. destruct rd; reflexivity.
+  - unfold park, sleep, add_trace, upd_ctx. cbn. rewrite v6. destruct rd; reflexivity.
+  - unfold park, sleep, add_trace, upd_ctx. cbn. rewrite v7. destruct rd; reflexivity.
+Qed.
+
+Lemma Inv_ret s t r w rd :
+  Inv s -> inside (pcof s t) = true ->
+  (forall k, ~ In (k, t) (s_map s)) ->
+  (forall u, u <> t -> adopted_by (pcof s u) <> Some t) ->
+  rd = is_reader (pcof s t) ->
+  Inv (ret_call s t r w rd).
+Proof.
+  intros [h1 h2 h3 h4 h5 h6 h7 h8 h9 h10] Hin Hmap Had Hrd.
+  destruct (ret_call_view s t r w rd _ eq_refl) as (u1 & u2 & u3 & u4 & u5 & u6 & u7).
+  set (s' := ret_call s t r w rd) in *.
+  assert (Hm : forall x, c_made (s_ctx s' x) = c_made (s_ctx s x)).
+  { intros x. rewrite u2. eqb_case x t; reflexivity. }
+  assert (Ht0 : forall x, c_tag0 (s_ctx s' x) = c_tag0 (s_ctx s x)).
+  { intros x. rewrite u2. eqb_case x t; reflexivity. }
+  constructor.
+  - congruence.
+  - intros x. rewrite u1, u2. eqb_case x t; [reflexivity|apply h2].
+  - intros x. rewrite u1, u2. eqb_case x t; [cbn; discriminate|apply h3].
+  - intros x. rewrite Hm, Ht0, u6. apply h4.
+  - intros x y. rewrite !Hm, !Ht0. apply h5.
+  - intros g c. rewrite u3. intros H. assert (c <> t) by (intros ->; eapply Hmap; eauto).
+    rewrite u1, u2. destruct (Nat.eqb_spec c t); [contradiction|]. apply h6; auto.
+  - intros x. rewrite u1, u2. eqb_case x t; [cbn; discriminate|apply h7].
+  - intros x o. rewrite u1, u2, u4. eqb_case x t; [cbn; discriminate|].
+    intros H. destruct (h8 x o H) as [A B]. split; [exact A|].
+    destruct rd; [|exact B]. exfalso. apply n.
+    assert (Hx : is_reader (pcof s x) = true) by (unfold is_reader; rewrite H; reflexivity).
+    symmetry in Hrd.
+    assert (I : Inv s) by (constructor; auto).
+    eapply reader_unique; eauto.
+  - intros x g. rewrite u1. eqb_case x t; [cbn; discriminate|].
+    intros H. assert (g <> t) by (intros ->; eapply Had; eauto).
+    destruct (h9 x g H) as (a & b & c & d).
+    rewrite u1, !u2, u3. destruct (Nat.eqb_spec g t); [contradiction|].
+    destruct (Nat.eqb_spec x t); [contradiction|].
+    split; [exact a|split; [exact b|split; [exact c|exact d]]].
+  - intros a. rewrite u5. apply h10.
+Qed.
+
+(* ---- more generic transitions ------------------------------------------------------------------------- *)
+Lemma Inv_add_acc s by_ g k : Inv s -> c_live (s_ctx s g) = true -> Inv (add_acc s by_ g k).
+Proof.
+  intros [h1 h2 h3 h4 h5 h6 h7 h8 h9 h10] L. constructor; cbn; auto.
+  intros a [<-|H]; cbn; auto.
+Qed.
+
+Lemma Inv_ctx_upd s g c' :
+  Inv s ->
+  c_made c' = c_made (s_ctx s g) -> c_tag0 c' = c_tag0 (s_ctx s g) -> c_live c' = c_live (s_ctx s g) ->
+  c_th c' = c_th (s_ctx s g) ->
+  (c_tag c' = c_tag (s_ctx s g) \/ (is_follower (pcof s g) = false /\ forall x, adopted_by (pcof s x) = None)) ->
+  (c_phase c' = c_phase (s_ctx s g) \/
+   (c_phase c' <> BEFORE_ISSUE /\
+    (c_phase c' = COLLECTED -> (forall k, ~ In (k, g) (s_map s)) /\ forall x, x <> g -> adopted_by (pcof s x) <> Some g))) ->
+  Inv (upd_ctx s g c').
+Proof.
+  intros [h1 h2 h3 h4 h5 h6 h7 h8 h9 h10] Em E0 El Eh Et Ep.
+  assert (P : forall x, pcof (upd_ctx s g c') x = pcof s x) by reflexivity.
+  assert (Hm : forall x, c_made (s_ctx (upd_ctx s g c') x) = c_made (s_ctx s x)).
+  { intros x. rewrite ctx_upd_ctx. eqb_case x g; auto. }
+  assert (Ht0 : forall x, c_tag0 (s_ctx (upd_ctx s g c') x) = c_tag0 (s_ctx s x)).
+  { intros x. rewrite ctx_upd_ctx. eqb_case x g; auto. }
+  assert (Hth : forall x, c_th (s_ctx (upd_ctx s g c') x) = c_th (s_ctx s x)).
+  { intros x. rewrite ctx_upd_ctx. eqb_case x g; auto. }
+  assert (Hl : forall x, c_live (s_ctx (upd_ctx s g c') x) = c_live (s_ctx s x)).
+  { intros x. rewrite ctx_upd_ctx. eqb_case x g; auto. }
+  constructor.
+  - exact h1.
+  - intros x. rewrite Hl, P. apply h2.
+  - intros x. rewrite Hm, Hth, P. intros H. destruct (h3 x H) as (a & b & c). split; [exact a|split; [exact b|]].
+    rewrite ctx_upd_ctx. eqb_case x g; [|exact c]. destruct Ep as [Ep|[Ep _]]; congruence.
+  - intros x. rewrite Hm, Ht0. apply h4.
+  - intros x y. rewrite !Hm, !Ht0. apply h5.
+  - intros k c H. change (s_map (upd_ctx s g c')) with (s_map s) in H.
+    destruct (h6 k c H) as (a & b & d). rewrite P, Ht0. split; [exact a|split; [exact b|]].
+    rewrite ctx_upd_ctx. eqb_case c g; [|exact d]. destruct Ep as [Ep|[_ Ep]]; [congruence|].
+    intros E. destruct (Ep E) as [A _]. eapply A; eauto.
+  - intros x. rewrite P, Ht0. intros H. rewrite ctx_upd_ctx. eqb_case x g; [|apply h7; auto].
+    destruct Et as [Et|[Et _]]; [rewrite Et; apply h7; auto|congruence].
+  - intros x o. rewrite P, Ht0. apply h8.
+  - intros x y. rewrite !P, Ht0. change (s_map (upd_ctx s g c')) with (s_map s). intros H.
+    destruct (h9 x y H) as (a & b & c & d). split; [exact a|split; [exact b|split]].
+    + rewrite ctx_upd_ctx. eqb_case x g; [|exact c].
+      destruct Et as [Et|[_ Et]]; [congruence|]. rewrite Et in H. discriminate.
+    + intros N. destruct (d N) as [d1 d2]. split; [exact d1|].
+      rewrite ctx_upd_ctx. eqb_case y g; [|exact d2]. destruct Ep as [Ep|[_ Ep]]; [congruence|].
+      intros E. destruct (Ep E) as [_ B]. eapply B; eauto.
+  - exact h10.
+Qed.
+
+Lemma Inv_become_reader s t o :
+  Inv s -> is_follower (pcof s t) = true -> s_rlock s = None -> o = c_tag (s_ctx s t) ->
+  Inv (set_pc (set_rlock s (Some t)) t (PReaderLoop o)).
+Proof.
+  intros I F R Eo. pose proof I as [h1 h2 h3 h4 h5 h6 h7 h8 h9 h10].
+  assert (NR : forall x, reader_otag (pcof s x) = None).
+  { intros x. destruct (reader_otag (pcof s x)) eqn:E; auto. destruct (h8 x z E). congruence. }
+  assert (NA : forall x, adopted_by (pcof s x) = None).
+  { intros x. destruct (adopted_by (pcof s x)) eqn:E; auto. apply adopted_is_reader in E.
+    unfold is_reader in E. rewrite NR in E. discriminate. }
+  assert (P : forall x, pcof (set_pc (set_rlock s (Some t)) t (PReaderLoop o)) x =
+                        if Nat.eqb x t then PReaderLoop o else pcof s x).
+  { intros x. rewrite pcof_set_pc. reflexivity. }
+  assert (Hin : forall x, inside (pcof (set_pc (set_rlock s (Some t)) t (PReaderLoop o)) x) = inside (pcof s x)).
+  { intros x. rewrite P. eqb_case x t; auto. unfold inside. rewrite F. reflexivity. }
+  constructor.
+  - exact h1.
+  - intros x. rewrite Hin. apply h2.
+  - intros x. rewrite Hin. apply h3.
+  - exact h4.
+  - exact h5.
+  - intros g c H. rewrite Hin. apply h6. exact H.
+  - intros x. rewrite P. eqb_case x t; [cbn; discriminate|apply h7].
+  - intros x o'. rewrite P. eqb_case x t.
+    + cbn. intros E. inversion E; subst o'. split; [|reflexivity]. rewrite Eo. apply h7. exact F.
+    + rewrite NR. discriminate.
+  - intros x g. rewrite P. eqb_case x t; [cbn; discriminate|]. rewrite NA. discriminate.
+  - exact h10.
+Qed.
+
+(* the reader stops adopting (or never was): fewer obligations *)
+Lemma Inv_drop_adopt s s' t p :
+  Inv s -> pc_upd s s' t p ->
+  is_follower p = is_follower (pcof s t) -> reader_otag p = reader_otag (pcof s t) -> adopted_by p = None ->
+  Inv s'.
+Proof.
+  intros [h1 h2 h3 h4 h5 h6 h7 h8 h9 h10] [u1 u2 u3 u4 u5 u6 u7] Hf Hr Ha.
+  assert (Hins : forall x, inside (pcof s' x) = inside (pcof s x)).
+  { intros x. rewrite u1. eqb_case x t; auto. unfold inside, is_reader. rewrite Hf, Hr. reflexivity. }
+  assert (Hfol : forall x, is_follower (pcof s' x) = is_follower (pcof s x)).
+  { intros x. rewrite u1. eqb_case x t; auto. }
+  assert (Hro : forall x, reader_otag (pcof s' x) = reader_otag (pcof s x)).
+  { intros x. rewrite u1. eqb_case x t; auto. }
+  constructor.
+  - congruence.
+  - intros x. rewrite u2, Hins. apply h2.
+  - intros x. rewrite u2, Hins. apply h3.
+  - intros x. rewrite u2, u6. apply h4.
+  - intros x y. rewrite !u2. apply h5.
+  - intros g c. rewrite u3, u2, Hins. apply h6.
+  - intros x. rewrite u2, Hfol. apply h7.
+  - intros x o. rewrite u2, u4, Hro. apply h8.
+  - intros x g. rewrite u1. eqb_case x t; [rewrite Ha; discriminate|].
+    rewrite !u2, u3, Hins, Hfol. apply h9.
+  - intros a. rewrite u5. apply h10.
+Qed.
+
+(* the reader starts collecting targ's body *)
+Lemma Inv_start_body s s' t otag targ p :
+  Inv s -> pc_upd s s' t p ->
+  reader_otag (pcof s t) = Some otag -> reader_otag p = Some otag -> adopted_by p = Some targ ->
+  inside (pcof s targ) = true -> (forall k, ~ In (k, targ) (s_map s)) ->
+  c_tag (s_ctx s t) = c_tag0 (s_ctx s targ) -> c_phase (s_ctx s targ) <> COLLECTED ->
+  Inv s'.
+Proof.
+  intros I [u1 u2 u3 u4 u5 u6 u7] Ro Rp Ap Tin Tmap Ttag Tph.
+  pose proof I as [h1 h2 h3 h4 h5 h6 h7 h8 h9 h10].
+  assert (Ft : is_follower (pcof s t) = false) by (destruct (pcof s t); cbn in *; congruence).
+  assert (Fp : is_follower p = false) by (destruct p; cbn in *; congruence).
+  assert (Hins : forall x, inside (pcof s' x) = inside (pcof s x)).
+  { intros x. rewrite u1. eqb_case x t; auto. unfold inside, is_reader. rewrite Ft, Fp, Ro, Rp. reflexivity. }
+  assert (Hfol : forall x, is_follower (pcof s' x) = is_follower (pcof s x)).
+  { intros x. rewrite u1. eqb_case x t; auto. congruence. }
+  assert (Hro : forall x, reader_otag (pcof s' x) = reader_otag (pcof s x)).
+  { intros x. rewrite u1. eqb_case x t; auto. congruence. }
+  constructor.
+  - congruence.
+  - intros x. rewrite u2, Hins. apply h2.
+  - intros x. rewrite u2, Hins. apply h3.
+  - intros x. rewrite u2, u6. apply h4.
+  - intros x y. rewrite !u2. apply h5.
+  - intros g c. rewrite u3, u2, Hins. apply h6.
+  - intros x. rewrite u2, Hfol. apply h7.
+  - intros x o. rewrite u2, u4, Hro. apply h8.
+  - intros x g. rewrite u1. eqb_case x t.
+    + rewrite Ap. intros E. inversion E; subst g. rewrite !u2, u3, Hins, Hfol.
+      split; [exact Tin|split; [exact Tmap|split; [exact Ttag|]]].
+      intros N. split; [|exact Tph]. apply inside_follower_or_reader; [exact Tin|].
+      destruct (is_reader (pcof s targ)) eqn:E'; [|reflexivity]. exfalso. apply N.
+      eapply reader_unique; eauto. unfold is_reader. rewrite Ro. reflexivity.
+    + rewrite !u2, u3, Hins, Hfol. apply h9.
+  - intros a. rewrite u5. apply h10.
+Qed.
+
+(* the reader has collected another thread's response: COLLECTED, and back to the top of the loop *)
+Lemma Inv_collect_other s s' t otag targ c' :
+  Inv s -> adopted_by (pcof s t) = Some targ -> reader_otag (pcof s t) = Some otag -> targ <> t ->
+  (forall x, pcof s' x = if Nat.eqb x t then PReaderLoop otag else pcof s x) ->
+  (forall x, s_ctx s' x = if Nat.eqb x targ then c' else s_ctx s x) ->
+  c_made c' = c_made (s_ctx s targ) -> c_tag0 c' = c_tag0 (s_ctx s targ) -> c_live c' = c_live (s_ctx s targ) ->
+  c_th c' = c_th (s_ctx s targ) -> c_tag c' = c_tag (s_ctx s targ) -> c_phase c' = COLLECTED ->
+  s_map s' = s_map s -> s_rlock s' = s_rlock s ->
+  (forall a, In a (s_acc s') -> In a (s_acc s) \/ a_live a = true) ->
+  s_mtag s' = s_mtag s -> s_fix s' = s_fix s ->
+  Inv s'.
+Proof.
+  intros I Ad Ro N u1 u2 Em E0 El Eh Et Ep u3 u4 u5 u6 u7.
+  pose proof I as [h1 h2 h3 h4 h5 h6 h7 h8 h9 h10].
+  destruct (h9 t targ Ad) as (Tin & Tmap & Ttag & Tf). destruct (Tf N) as [Tfol Tph].
+  assert (Hins : forall x, inside (pcof s' x) = inside (pcof s x)).
+  { intros x. rewrite u1. eqb_case x t; auto. unfold inside, is_reader. rewrite Ro.
+    destruct (pcof s t); cbn in *; congruence. }
+  assert (Hfol : forall x, is_follower (pcof s' x) = is_follower (pcof s x)).
+  { intros x. rewrite u1. eqb_case x t; auto. destruct (pcof s t); cbn in *; congruence. }
+  assert (Hro : forall x, reader_otag (pcof s' x) = reader_otag (pcof s x)).
+  { intros x. rewrite u1. eqb_case x t; auto. }
+  assert (Hm : forall x, c_made (s_ctx s' x) = c_made (s_ctx s x)).
+  { intros x. rewrite u2. eqb_case x targ; auto. }
+  assert (Ht0 : forall x, c_tag0 (s_ctx s' x) = c_tag0 (s_ctx s x)).
+  { intros x. rewrite u2. eqb_case x targ; auto. }
+  assert (Hth : forall x, c_th (s_ctx s' x) = c_th (s_ctx s x)).
+  { intros x. rewrite u2. eqb_case x targ; auto. }
+  assert (Hl : forall x, c_live (s_ctx s' x) = c_live (s_ctx s x)).
+  { intros x. rewrite u2. eqb_case x targ; auto. }
+  assert (Htg : forall x, c_tag (s_ctx s' x) = c_tag (s_ctx s x)).
+  { intros x. rewrite u2. eqb_case x targ; auto. }
+  constructor.
+  - congruence.
+  - intros x. rewrite Hl, Hins. apply h2.
+  - intros x. rewrite Hm, Hth, Hins. intros H. destruct (h3 x H) as (a & b & c). split; [exact a|split; [exact b|]].
+    rewrite u2. eqb_case x targ; [|exact c]. rewrite Ep. discriminate.
+  - intros x. rewrite Hm, Ht0, u6. apply h4.
+  - intros x y. rewrite !Hm, !Ht0. apply h5.
+  - intros k c. rewrite u3, Hins, Ht0. intros H. destruct (h6 k c H) as (a & b & d).
+    split; [exact a|split; [exact b|]]. rewrite u2. eqb_case c targ; [|exact d]. exfalso. eapply Tmap; eauto.
+  - intros x. rewrite Htg, Ht0, Hfol. apply h7.
+  - intros x o. rewrite Ht0, u4, Hro. apply h8.
+  - intros x g. rewrite u1. eqb_case x t; [cbn; discriminate|].
+    intros H. assert (R : is_reader (pcof s x) = true) by (eapply adopted_is_reader; eauto).
+    exfalso. apply n. eapply reader_unique; eauto. unfold is_reader. rewrite Ro. reflexivity.
+  - intros a H. destruct (u5 a H); auto.
+Qed.
